@@ -12,6 +12,7 @@ Counters G;
 EventLog EV;
 std::map<std::string, uint64_t> g_violation_counts;
 std::string g_values_dir;
+std::string g_history;
 
 uint64_t fnv1a(const void *p, size_t n, uint64_t h) {
     const uint8_t *b = (const uint8_t *)p;
@@ -160,8 +161,10 @@ void report_violation(const std::string &property, const std::string &sig, const
     uint64_t &c = g_violation_counts[sig];
     c++;
     if(c > 3) return;      // keep a few plans per signature per worker
-    printf("{\"type\":\"violation\",\"property\":\"%s\",\"sig\":\"%s\",\"detail\":\"%s\",\"plan\":\"%s\"}\n",
-           property.c_str(), json_escape(sig).c_str(), json_escape(detail).c_str(), json_escape(plan_text).c_str());
+    // "history": where in this worker's sequence of run indices the violation happened, for violations that only exist after what the
+    // process did before (library statics that ratchet): seed start stride index tier
+    printf("{\"type\":\"violation\",\"property\":\"%s\",\"sig\":\"%s\",\"detail\":\"%s\",\"plan\":\"%s\",\"history\":\"%s\"}\n",
+           property.c_str(), json_escape(sig).c_str(), json_escape(detail).c_str(), json_escape(plan_text).c_str(), json_escape(g_history).c_str());
     fflush(stdout);
 }
 
